@@ -12,9 +12,9 @@ task is rendered alone again before and after the schedules of its case.  The
 fragments include every built-in filter in plain and rare argument forms (the
 forms that touch environment policies and other state outside the call), used by
 both tasks before and after their await points; environments carry policy values
-of their own or the process-wide defaults.  In every other case the tasks' main
-templates are loaded with different template-level globals that the shared
-(cached) libraries read."""
+of their own or the process-wide defaults.  Small extra cases load the tasks' main
+templates with different template-level globals that the shared (cached)
+libraries read."""
 from __future__ import annotations
 
 import asyncio
@@ -95,20 +95,27 @@ RULE = ("case = generated template set (import library cached per environment, w
         "when a task is inside a scoped eval-context block: schedules_with_task_suspended_inside_"
         "imported_autoescape_block counts schedules in which a task stayed suspended there while "
         "another task ran, schedules_probing_eval_context_during_such_suspension those in which "
-        "another task evaluated a probe at that time. TEMPLATE-LEVEL GLOBALS: in every other case of "
-        "either kind (alternating with the shard number) the main templates are loaded with "
-        "Environment.get_template(name, globals=...) and DIFFERENT template-level globals (one of "
-        "six variants over the names SITE / TG2: one main with, the other without; both with "
+        "another task evaluated a probe at that time. TEMPLATE-LEVEL GLOBALS: every generated-"
+        "template case is also followed by a small TG CASE (2-3 tasks, <= 3 gates + start each, "
+        "usually all orders) and every module-body race by a smaller one (order cap 50 quick / "
+        "1000 thorough) whose main templates are loaded with "
+        "Environment.get_template(name, globals=...) and DIFFERENT template-level globals (six "
+        "variants over the names SITE / TG2 and their mirror images, selected by shard and case "
+        "number: one main with, the other without; both with "
         "different values; disjoint names; tasks that share a main template share its globals, in a "
         "module-body race a single shared main is copied under a second name), and the shared "
         "library reads those names without defining them (a macro, an exported top-level "
-        "variable): generated-template cases get 1-2 extra fragments per main drawn from: macro + "
+        "variable): the TG case's mains hold 1-2 fragments (kinds rotating with shard and case "
+        "number) drawn from: macro + "
         "variable of the library imported at the head of the template around a g() call, a "
         "from-import of them, an import of the library BEHIND an await point, an include WITHOUT "
-        "context of a template that imports the library, the globals read directly; in module-"
+        "context of a template that imports the library, the globals read directly, next to 0-1 "
+        "fragments of the list above; in the module-"
         "body races every import of mlib.j2 is followed by [TG=macro + variable]; values are "
         "alphanumeric so these outputs do not depend on the eval context; alone-outputs as "
-        "before (the task alone, its main loaded with its globals in a fresh environment); "
+        "before (the task alone, its main loaded with its globals in a fresh environment); the "
+        "other cases keep templates without template-level globals, because an importer with such "
+        "globals gets a library module of its own and shares no macro objects with other tasks; "
         "schedules_importer_with_template_level_globals_starts_after_task_with_others counts "
         "schedules in which a task with globals started after a task with other (or no) "
         "globals had started, .._in_new_environment those in an environment that had not "
@@ -880,9 +887,10 @@ def run_case(ctx, case, quick, rng, loop, first=0, pristine=False):
     counts = [len(g) + 1 for g in gates]
     total = GEN.n_orders(counts)
     cap = 400 if quick else 5000
-    if case.get("ff_pair"):
-        # the small cases built around a filter-form pair ride along with every
-        # generated-template case: few gates, so usually all orders are below this cap
+    if case.get("ff_pair") or case.get("tg_case"):
+        # the small cases built around a filter-form pair / around template-level globals
+        # ride along with every generated-template case: few gates, so usually all orders
+        # are below this cap
         cap = 120 if quick else 1500
     ctx.count("cases")
     ctx.count("cases_%d_tasks" % len(tasks))
@@ -1189,6 +1197,9 @@ def run_modcase(ctx, case, quick, rng, loop):
 
 def _run_modcase(ctx, case, quick, rng, loop, solo_out):
     cap = 120 if quick else 3000
+    if case.get("small"):
+        # the template-level-globals variant rides along with every module-body race
+        cap = 50 if quick else 1000
     ctx.count("modrace_cases")
     ctx.count("modrace_cases_%d_tasks" % len(case["tasks"]))
     if any(t.get("tglobals") for t in case["tasks"]):
@@ -1255,12 +1266,13 @@ def run(ctx):
         i = 0
         nmax = 400 if quick else 20000
         while ctx.more(i, nmax, floor=2):
-            # every other case of either kind (alternating with the shard number) loads its
-            # main templates with different TEMPLATE-LEVEL GLOBALS that the shared library reads
-            with_tg = (i // 2 + ctx.shard) % 2 == (i % 2)
             if i % 2 == 1:
-                run_modcase(ctx, GEN.gen_modcase(rng, ctx.rng("tg%d" % i) if with_tg else None),
-                            quick, ctx.rng("case%d" % i), loop)
+                run_modcase(ctx, GEN.gen_modcase(rng), quick, ctx.rng("case%d" % i), loop)
+                # ... followed by a smaller module-body race whose main templates are
+                # loaded with different TEMPLATE-LEVEL GLOBALS that the library reads
+                run_modcase(ctx, GEN.gen_modcase(ctx.rng("tgmod%d" % i), ctx.rng("tg%d" % i),
+                                                 ctx.shard + 3 * (i // 2)),
+                            quick, ctx.rng("tgcase%d" % i), loop)
             else:
                 # of the generated-template cases every other one pairs a task that awaits
                 # inside an autoescape block of the cached library with a task that probes
@@ -1272,8 +1284,7 @@ def run(ctx):
                 # this machine to start more of them); the shard number decides which of
                 # the two tasks goes first
                 case = GEN.gen_case(rng, force_evalctx=(i % 4 == 2), force_kinds=(i % 6 == 0),
-                                    all_families=(i == 0), rng2=ctx.rng("policies%d" % i),
-                                    rng_tg=ctx.rng("tg%d" % i) if with_tg else None)
+                                    all_families=(i == 0), rng2=ctx.rng("policies%d" % i))
                 run_case(ctx, case, quick, ctx.rng("case%d" % i), loop,
                          first=ctx.shard + i // 2, pristine=(i == 0))
                 # ... followed by a small case that pairs a task using rare argument
@@ -1283,6 +1294,12 @@ def run(ctx):
                 # paired whatever the seed
                 pair = GEN.gen_pair_case(ctx.rng("pair%d" % i), ctx.shard + 3 * (i // 2), avail)
                 run_case(ctx, pair, quick, ctx.rng("paircase%d" % i), loop,
+                         first=ctx.shard + i // 2)
+                # ... and by a small case whose two main templates are loaded with
+                # different TEMPLATE-LEVEL GLOBALS that the shared library reads (shard and
+                # case number select the variant and the kind of fragment)
+                tgc = GEN.gen_tg_case(ctx.rng("tg%d" % i), ctx.shard + 3 * (i // 2))
+                run_case(ctx, tgc, quick, ctx.rng("tgcase%d" % i), loop,
                          first=ctx.shard + i // 2)
             i += 1
     finally:
